@@ -317,6 +317,9 @@ pub enum Op {
     },
     /// C11: <layers>/<name> itself becomes a symlink to the canary directory
     TopSymlink { layer: usize, abs: bool },
+    /// <layers>/<name>.sbom.<format>.json is a symbolic link: 0 dangling, 1 pointing at itself,
+    /// 2 to a canary file, 3 to a canary directory (left by an earlier build or by a person)
+    SbomLink { layer: usize, format: usize, kind: u8 },
     /// end of build, stub lifecycle restore, start of next build
     Restore { kind: RestoreKind },
 }
@@ -339,7 +342,8 @@ impl Op {
             | Op::HardLink { layer, .. }
             | Op::Implicit { layer, .. }
             | Op::SpecDir { layer, .. }
-            | Op::TopSymlink { layer, .. } => Some(*layer),
+            | Op::TopSymlink { layer, .. }
+            | Op::SbomLink { layer, .. } => Some(*layer),
             Op::Restore { .. } => None,
         }
     }
@@ -362,6 +366,7 @@ impl Op {
             Op::Implicit { .. } => "Implicit",
             Op::SpecDir { .. } => "SpecDir",
             Op::TopSymlink { .. } => "TopSymlink",
+            Op::SbomLink { .. } => "SbomLink",
             Op::Restore { .. } => "Restore",
         }
     }
